@@ -161,8 +161,7 @@ func (d *Driver) IsType(e ast.Expr) bool {
 	case *ast.SelectorExpr:
 		if id, ok := t.X.(*ast.Ident); ok {
 			if path, ok := d.importOf(id); ok {
-				_, isT := d.member(path, t.Sel.Name).(*types.TypeName)
-				return isT
+				return isTypeName(d.member(path, t.Sel.Name))
 			}
 		}
 	case *ast.IndexExpr:
@@ -478,7 +477,7 @@ func (d *Driver) expr0(e ast.Expr, lhs int) {
 				if o == nil {
 					panic(fmt.Errorf("undefined: %s.%s", id.Name, v.Sel.Name))
 				}
-				if _, isT := o.(*types.TypeName); isT {
+				if isTypeName(o) {
 					d.do("Typ", +1, func() { cb.Typ(o.Type(), v) })
 				} else {
 					d.do("Val", +1, func() { cb.Val(o, v) })
